@@ -110,6 +110,9 @@ package utils
 // validateChecksum did, and validateChecksum only when the computed and the announced checksum are equal; the chunk
 // payload is read through the tee that feeds the hash; none of the helpers reports a bare io.EOF.
 //@ func (*UnsignedChunkReader) extractChunkSize
+// C20: the size line is read into the reader's own bounded buffer (ReadSlice), never into one that grows with the line
+//@   at-call? bufio.Reader.ReadString {C20} [a-size-line-is-read-into-a-bounded-buffer] requires false
+//@   at-call? bufio.Reader.ReadBytes {C20} [a-size-line-is-read-into-a-bounded-buffer-2] requires false
 //@   ensures {C12} [a-missing-size-line-is-not-a-clean-end] err != io.EOF
 //@   ensures {C20} [a-chunk-size-is-a-count] err == nil ==> ret0 >= 0
 //@ func (*UnsignedChunkReader) readAndSkip
@@ -120,6 +123,7 @@ package utils
 //@   at-return {C06,C12} [nil-only-for-equal-checksums] when ret0 == nil :: ensures called("base64.Encoding.EncodeToString") && result("base64.Encoding.EncodeToString", 0) == ucr.expectedChecksum \
 //@        && arg("base64.Encoding.EncodeToString", 1) == result("hash.Hash.Sum", 0)
 //@ func (*UnsignedChunkReader) readTrailer
+//@   at-call bytes.Buffer.WriteByte {C20} [a-trailer-line-is-bounded] requires called("bytes.Buffer.Len") && result("bytes.Buffer.Len", 0) < maxHeaderSize
 //@   ensures {C12} [a-cut-trailer-is-not-a-clean-end] ret0 != io.EOF
 //@   at-return {C06,C12} [nil-only-after-the-checksum-matched] when ret0 == nil :: ensures called("utils.UnsignedChunkReader.validateChecksum") && result("utils.UnsignedChunkReader.validateChecksum", 0) == nil
 // C02: the deferred request signature is verified by the reader underneath when the raw stream reports its end, so the
